@@ -147,6 +147,11 @@ def rdTok (d : List Byte) (pos : Nat) : Nat :=
 /-- a constructed element: token, then filler -/
 def elemBytes (tok sz : Nat) : List Byte := (le32 tok ++ List.replicate (sz - 4) 0xa5).take sz
 
+/-- the event of a successful construction of `tok`: copy of the element holding `src`, or default -/
+def ctorEv (tok : Nat) : Option Nat → Ev
+  | some k => Ev.copy tok k
+  | none => Ev.init tok
+
 /-- `init(ptr, src)` on the element at `pos` of buffer `b`; `src` = token in the source element.
     Result: did construction succeed -/
 def initAt (s : State) (b pos sz : Nat) (src : Option Nat) : Out Bool :=
@@ -157,10 +162,7 @@ def initAt (s : State) (b pos sz : Nat) (src : Option Nat) : Out Bool :=
     match s.oracle with
     | true :: rest => .ok { s with oracle := rest, log := s.log ++ [Ev.fail] } false
     | o =>
-      let ev := match src with
-        | some k => Ev.copy s.next k
-        | none => Ev.init s.next
-      .ok ({ s with oracle := o.tail, next := s.next + 1, log := s.log ++ [ev] }.setBuf b
+      .ok ({ s with oracle := o.tail, next := s.next + 1, log := s.log ++ [ctorEv s.next src] }.setBuf b
             { x with data := Mem.write x.data pos (elemBytes s.next sz) }) true
 
 /-- `fini(ptr)` -/
